@@ -105,6 +105,22 @@ theorem c04_fs_follow (v : Model.Fs.Vol) (count : Nat) (hv : Proofs.FsInv.VolOK 
     (h : Proofs.FsInv.Inv v count s) (n : Model.Fs.Node) (hn : n ∈ s.nodes) (hc : n.chain ≠ []) :
     chainOf v.p s.fat n.clus = .ok n.chain := Proofs.FsRun.follow_node hv h n hn hc
 
+/-- **size against chain length**, every reachable state: a file without a cluster is empty; a file with a chain has
+    exactly `max 1 ⌈size / bytes-per-cluster⌉` clusters (an empty file may keep one cluster) -/
+theorem c04_fs_size_matches_chain (v : Model.Fs.Vol) (count : Nat) (hv : Proofs.FsInv.VolOK v count) (s : Model.Fs.St)
+    (h : Proofs.FsInv.Inv v count s) (hs : Proofs.FsShape.ShapeNodes v.bpc s.nodes) (ops : List Model.Fs.Op)
+    (f : Model.Fs.Node) (hf : f ∈ (Model.Fs.run v s ops).nodes) (hfile : f.isDir = false) :
+    (f.chain = [] ∧ f.size = 0) ∨
+      (f.chain ≠ [] ∧ f.chain.length = max 1 (Proofs.FsShape.cn v.bpc f.size)) := by
+  have hb : 0 < v.bpc := by have := hv.bpc; omega
+  rcases Proofs.FsInv.run_shape hv ops s h hs f hf hfile with h1 | ⟨h1, h2⟩
+  · exact Or.inl h1
+  · exact Or.inr ⟨h1, by rw [← Proofs.FsShape.numClus_eq _ _ hb]; exact h2⟩
+
+/-- the translated `calc_num_clusters` is the ceiling of size / bytes-per-cluster -/
+theorem c04_num_clusters_is_ceiling (b x : Nat) (hb : 0 < b) :
+    Model.Fs.numClus b x = (x + b - 1) / b := Proofs.FsShape.numClus_eq b x hb
+
 /-- The full statement of C04 speaks about the device image after `close()`
     (directory tree → chains, sizes vs. chain lengths, all FAT copies).  It is
     decided on the real code by the independent checker (suites ns/fat); as a
